@@ -55,6 +55,8 @@ def run(ctx):
     ctx.alias = {'R1': 'R10'}
     c02.r1_reader(ctx)
     ctx.alias = {}
+    shared.check_token_ctors_verbatim(ctx, 'R10')
+    shared.check_cells_unmodified(ctx, 'R10')
     from .. import regen
     regen.check(ctx, 'R6')
     # the accepted-category tests rest on is_child / valid / nodes: nodes(c) is computed afresh from the hierarchy (a set that is
